@@ -16,7 +16,7 @@ use vbase::{ensure, fail};
 
 use crate::family::{Adjacent, Deny, Enums, External, Flat, Internal, Nested, Plain, Tree, Untagged, WithOpt};
 
-pub const RULE: &str = "cases are byte strings: generated well-formed documents, one or two random mutations of them, random bytes and token soup, every truncation / substitution / deletion of a document set, an alignment sweep (short documents padded to every total length 1..=200 at offsets 0..=64), and a depth sweep (nesting 1..=300, 1000, 10^4, 10^5, 10^6 of arrays, objects, alternating, closed and unclosed). Each input is handed to every safe entry point (from_slice/from_str/from_reader for Value, Option<Value>, structs, LazyValue, OwnedLazyValue, RawNumber, Number, strings, numbers, containers, enums, serde_json::Value, IgnoredAny; Deserializer::from_json over &str/&[u8]/&String/&Bytes/&FastStr with repeated deserialize, into_stream, use_rawnumber, utf8_lossy; get/get_from_*/get_many/get_by_schema with fixed path sets; both lazy iterators and LazyValue::into_*_iter; on every Ok the accessor set, to_string, to_string_pretty, Display, Debug, conversions LazyValue -> OwnedLazyValue -> Value; on every Err Display, Debug, offset/line/column/classify; owned results — Value, structs/Vec/maps of Value, later stream documents, OwnedLazyValue, get_by_schema, in default, raw-number and lossy mode — are also parsed from a private mapping that is unmapped before the result is read, cloned and serialized, so a pointer kept into the caller's input faults; borrowed results (&str, Cow<str>, borrowed LazyValue fields, keys and values of the lazy object iterators over every carrier and of LazyValue::into_object_iter) are read again after the reader / iterator that produced them was dropped and must not have changed). The input buffer is placed on the heap, ending exactly at a PROT_NONE guard page, or starting right after one. Violations: a panic (caught, with payload), a fatal signal (SIGSEGV incl. stack overflow, SIGABRT, SIGBUS — captured by a signal handler that writes the replay file), a double free or write after free seen by the quarantine allocator, or allocations left behind by the second of two identical runs (leak). Non-trivial = input of length >= 2 of which at least one entry point consumed >= 2 bytes (Ok, or an error with offset >= 1); distinct by input bytes.";
+pub const RULE: &str = "cases are byte strings: generated well-formed documents, wide documents (objects of 40..260 members nesting objects of 10..150 members), number literals that reach the slow paths of the float parser (exact ties with zero tails of 700..5000 digits, 767..4000-digit significands), one or two random mutations of them, random bytes and token soup, every truncation / substitution / deletion of a document set, an alignment sweep (short documents padded to every total length 1..=200 at offsets 0..=64), and a depth sweep (nesting 1..=300, 1000, 10^4, 10^5, 10^6 of arrays, objects, alternating, closed and unclosed). Each input is handed to every safe entry point (from_slice/from_str/from_reader for Value, Option<Value>, structs, LazyValue, OwnedLazyValue, RawNumber, Number, strings, numbers, containers, enums, serde_json::Value, IgnoredAny; Deserializer::from_json over &str/&[u8]/&String/&Bytes/&FastStr with repeated deserialize, into_stream, use_rawnumber, utf8_lossy; get/get_from_*/get_many/get_by_schema with fixed path sets; both lazy iterators and LazyValue::into_*_iter; on every Ok the accessor set, to_string, to_string_pretty, Display, Debug, conversions LazyValue -> OwnedLazyValue -> Value; on every Err Display, Debug, offset/line/column/classify; owned results — Value, structs/Vec/maps of Value, later stream documents, OwnedLazyValue, get_by_schema, in default, raw-number and lossy mode — are also parsed from a private mapping that is unmapped before the result is read, cloned and serialized, so a pointer kept into the caller's input faults; borrowed results (&str, Cow<str>, borrowed LazyValue fields, keys and values of the lazy object iterators over every carrier and of LazyValue::into_object_iter) are read again after the reader / iterator that produced them was dropped and must not have changed). The input buffer is placed on the heap, ending exactly at a PROT_NONE guard page, or starting right after one. Violations: a panic (caught, with payload), a fatal signal (SIGSEGV incl. stack overflow, SIGABRT, SIGBUS — captured by a signal handler that writes the replay file), a double free or write after free seen by the quarantine allocator, or allocations left behind by the second of two identical runs (leak). Non-trivial = input of length >= 2 of which at least one entry point consumed >= 2 bytes (Ok, or an error with offset >= 1); distinct by input bytes.";
 pub const ASSUMPTIONS: &[&str] = &["unsafe *_unchecked functions are not part of C01's entry points", "the depth sweep runs on threads with Rust's default 2 MiB stack; bounded stack means bounded independently of the nesting depth", "thorough tier: libFuzzer + AddressSanitizer + LeakSanitizer over the same entry-point table"];
 
 #[derive(Deserialize)]
@@ -570,8 +570,67 @@ pub fn depth_case(shape: u8, closed: bool, depth: usize) -> Vec<u8> {
     c
 }
 
+/// number literals that drive the slow paths of the float parser (exact ties of adjacent doubles with very
+/// long digit tails, 800-digit significands, explicit exponent signs)
+fn hard_numbers() -> Vec<Vec<u8>> {
+    let mut v: Vec<Vec<u8>> = Vec::new();
+    for base in ["9007199254740993", "9007199254740993.", "1.00000000000000011102230246251565404236316680908203125", "4.9406564584124654e-324", "2.4703282292062327e-324", "179769313486231580793728971405303415079934132710037826936173778980444968292764750946649017977587207096330286416692887910946555547851940402630657488671505820681908902000708383676273854845817711531764475730270069855571366959622842914819860834936475292719074168444365510704342711559699508093042880177904174497791.9999999999999999999999999999999999999999999999999999999999999999999999999999999"] {
+        for zeros in [0usize, 100, 700, 745, 752, 760, 767, 768, 769, 800, 1200, 5000] {
+            for tail in ["", "1", "e0", "1e+0", "e-5", "E+5"] {
+                if zeros > 0 && !base.contains('.') {
+                    continue;
+                }
+                let mut s = base.to_string();
+                s.push_str(&"0".repeat(zeros));
+                s.push_str(tail);
+                v.push(s.clone().into_bytes());
+                v.push(format!("[{s},{s}]").into_bytes());
+                v.push(format!("{{\"k\":{s}}}").into_bytes());
+            }
+        }
+    }
+    for n in [767usize, 768, 769, 770, 800, 1000, 4000] {
+        for d in ['1', '9', '5'] {
+            let digits: String = std::iter::repeat(d).take(n).collect();
+            v.push(digits.clone().into_bytes());
+            v.push(format!("0.{digits}").into_bytes());
+            v.push(format!("{digits}.{digits}e-{n}").into_bytes());
+            v.push(format!("0.{}{digits}E+{}", "0".repeat(n), n).into_bytes());
+        }
+    }
+    v
+}
+
 pub fn run(ctx: &Ctx) {
     let subs = subs();
+    // In the feature builds (sort_keys / arbitrary_precision / utf8_lossy) only the code those features
+    // switch on is of interest: a reduced run over documents that reach it.
+    if cfg!(any(feature = "sort_keys", feature = "arbitrary_precision", feature = "utf8_lossy")) {
+        ctx.search(&subs[1], "wide-nested", ctx.n(1_500, 20_000), 120, &|src: &mut Src| {
+            let mut c = vec![0u8];
+            c.extend_from_slice(&gens::gen_wide_nested(src));
+            c
+        });
+        let p = DocParams { ws: 1, max_depth: 5, max_items: 8, allow_inf: true, allow_lone_surrogates: true, dup_keys: true, ..DocParams::default() };
+        ctx.search(&subs[1], "valid", ctx.n(6_000, 100_000), 500, &move |src: &mut Src| {
+            let mut c = vec![src.byte() % 3];
+            c.extend_from_slice(&gens::gen_doc(src, &p));
+            c
+        });
+        ctx.search(&subs[1], "wide-objects", ctx.n(2_000, 30_000), 200, &|src: &mut Src| {
+            let mut c = vec![0u8];
+            c.extend_from_slice(&gens::gen_wide_object(src));
+            c
+        });
+        return;
+    }
+    let hard: Vec<Vec<u8>> = hard_numbers().into_iter().map(|d| [&[0u8][..], &d].concat()).collect();
+    ctx.cases(&subs[1], &hard);
+    ctx.search(&subs[1], "wide-nested", ctx.n(600, 8_000), 120, &|src: &mut Src| {
+        let mut c = vec![0u8];
+        c.extend_from_slice(&gens::gen_wide_nested(src));
+        c
+    });
     // depth sweep first: the cheapest way to die
     let mut list = Vec::new();
     let mut depths: Vec<usize> = vec![1, 2, 3, 10, 64, 100, 127, 128, 129, 200, 254, 255, 256, 257, 300, 1000, 10_000, 100_000];
